@@ -15,9 +15,13 @@ TEXTS = {
                 "increasing subsequence of the handling order. The model is tied to the real Broker<T> by a "
                 "linearizability-style search on real histories.",
         "design_ref": "DESIGN.md §5 C09",
-        "note": "Partial: exactly-once delivery by quiescence to definitely-subscribed live subscribers and the two "
-                "non-blocking clauses are trace-checked. Trusted: Lean kernel + axioms; Model/Broker.lean validated "
-                "by acceptance of real histories (1-3 publishers incl. Context::publish, 1-4 subscribers, 1-2 topics).",
+        "note": "Exactly-once by quiescence is theorem C09q_holds: in every run of the broker model that ends settled "
+                "(empty mailbox, nothing in flight - what the acceptor demands of a quiescent real history) every "
+                "publication whose publish returned has been taken up by every live subscriber whose subscribe "
+                "returned before the publish began and whose unsubscribes all returned before that subscribe began. "
+                "The two non-blocking clauses are trace-checked. Trusted: Lean kernel + axioms; Model/Broker.lean "
+                "validated by acceptance of real histories (1-3 publishers incl. Context::publish, 1-4 subscribers, "
+                "1-2 topics).",
         "technique": "Lean 4 proof (ghost handling order, subsequence invariant) + linearizability check of real histories against the model",
     },
     "C16": {
@@ -194,9 +198,11 @@ TEXTS = {
                 "(repeated, concurrent), consume, detach and any termination cause. Builds on the C04 invariants plus "
                 "log/result coupling (monitor fold = model log, value handed out iff result slot emptied).",
         "design_ref": "DESIGN.md §5 C17",
-        "note": "Partial: the None clauses and 'resolves exactly when terminated' (monC17n) are trace-checked. The "
-                "harness also exercises join futures that are created and dropped unpolled. Trusted: Lean kernel + "
-                "axioms; join-slot model (async mutex + JoinHandle) validated by trace acceptance.",
+        "note": "The None clauses (monC17n: None / AlreadyStopped only for a join that found the slot taken, or after "
+                "termination when the actor failed or the value was already handed out; a join that found the slot "
+                "taken never yields a value) are theorem C17n_holds (fresh operation ids; consume is the last use of "
+                "the owning address). The harness also exercises join futures that are created and dropped unpolled. "
+                "Trusted: Lean kernel + axioms; join-slot model (async mutex + JoinHandle) validated by trace acceptance.",
         "technique": "Lean 4 proof (result-slot and log refinement on top of the latch invariants) + regenerated wiring + checked trace correspondence",
     },
     "C13": {
@@ -257,8 +263,10 @@ TEXTS = {
                 "earlier incarnations are dead, dead timers never come back). The refresh facts are re-extracted "
                 "from restart_strategy.rs on every run; the negation is proved for the no-abort wiring by a witness.",
         "design_ref": "DESIGN.md §5 C07, §8 D3",
-        "note": "Partial: the order clause (monC07o) and 'started error during restart terminates as failed' "
-                "(covered by C03's monitor) are trace-checked. Trusted: Lean kernel + axioms; timer model "
+        "note": "The order clause (a message submitted after k accepted restart requests is handled by incarnation "
+                "k+1; by incarnation 1 on a non-restartable spawn, which also keeps its repeating timers) is theorem "
+                "C07o_holds (monC07o; WellWired05, fresh message numbers and operation ids). 'started error during "
+                "restart terminates as failed' is covered by C03 / C06. Trusted: Lean kernel + axioms; timer model "
                 "(spawned/sleeping/sending/dead/ended) validated by executor-level arm/end events.",
         "technique": "Lean 4 proof (dead-timer monotonicity + phase simulation) + regenerated wiring + checked trace correspondence",
     },
@@ -287,7 +295,8 @@ TEXTS = {
                 "is proved for the Caller-holds-only-tx wiring by a concrete witness. The monitor-side handle table "
                 "is proved equal to the model's. interval_with timers (monC15iw) are judged on real traces only.",
         "design_ref": "DESIGN.md §5 C15, §8 D2",
-        "note": "Partial: the interval_with clause and target preservation are trace-checked, not proved. Trusted: "
+        "note": "The interval_with clause is theorem C15iw_holds (monC15iw, WellWired15). Target preservation "
+                "(every handle keeps addressing the same actor) is structural in the model and trace-checked. Trusted: "
                 "Lean kernel + axioms propext/Classical.choice/Quot.sound; model of Arc ownership as handle table + "
                 "in-flight operations; translator's capture analysis of the constructor closures.",
         "technique": "Lean 4 proof (handle-table refinement + ownership invariant) + regenerated wiring + checked trace correspondence",
